@@ -243,14 +243,42 @@
     requires old(self).fully_wired(), all_snapshot_images_ok()
     // @C01 restart: snapshot stage (when there is a snapshot), then the replay stage — in this order, nothing else
     ensures *final(self) == *old(self),
-        (old(self).snapshot_next_index == 0) ==> final(vx_log).s == old(vx_log).s + old(self).replay_effs(),
-        (old(self).snapshot_next_index != 0) ==> (
-            final(vx_log).s == old(vx_log).s.push(sent(old(self).snapshot_manager.unwrap(), RaftSnapshotRequest::GetLastSnapshot)) + old(self).replay_effs()
-            || exists|p: Seq<char>, k: int| 0 <= k <= snap_recs(disk_at_open(p)).len() && final(vx_log).s
-                == old(vx_log).s.push(sent(old(self).snapshot_manager.unwrap(), RaftSnapshotRequest::GetLastSnapshot))
-                    + snap_effs_all(old(self).h(), #[trigger] snap_recs(disk_at_open(p)).take(k)) + old(self).replay_effs()),
+        old(self).snapshot_stage(old(vx_log).s, final(vx_log).s),
 @@ StateApplyManager::load_snapshot entry
     broadcast use axiom_arc_cloned;
     let ghost l0 = vx_log.s;
 @@ StateApplyManager::load_snapshot before_return 1
     proof { assert(*self == *old(self)); assert(vx_log.s == l0 + old(self).replay_effs()); }
+@@ StateApplyManager::load_index effects send
+@@ StateApplyManager::load_index effects_pass load_snapshot load_log
+@@ StateApplyManager::load_index t20_calls load_snapshot load_log
+@@ StateApplyManager::load_index subst
+    super::raftindex::RaftIndexRequest => RaftIndexRequest
+@@ StateApplyManager::load_index chain 1
+    env index_manager: Addr<RaftIndexManager>, data_wrap: Arc<RaftDataHandler>, snapshot_manager: Addr<RaftSnapshotManager>, log_manager: Addr<RaftLogManager>
+    returns anyhow::Result<RaftIndexResponse>
+    expose
+@@ StateApplyManager::load_index chain 1 spec
+    ensures final(vx_log).s == old(vx_log).s.push(sent(index_manager, RaftIndexRequest::LoadIndexInfo)), reply_sane(r) || r is Err,
+@@ StateApplyManager::load_index spec
+    requires old(self).data_wrap is Some && old(self).index_manager is Some && old(self).log_manager is Some && old(self).snapshot_manager is Some,
+        old(self).last_applied_log < u64::MAX, all_snapshot_images_ok()
+    // @C01 @C07 start-up: the index manager is asked what was saved; the replay ends at the last APPLIED entry and starts behind the
+    // LAST snapshot of the catalogue; then the snapshot stage and the replay stage run with exactly these two numbers
+    ensures
+        final(self).index_manager == old(self).index_manager && final(self).data_wrap == old(self).data_wrap
+            && final(self).log_manager == old(self).log_manager && final(self).snapshot_manager == old(self).snapshot_manager,
+        vx_done.chain@ is Some,
+        (final(self).snapshot_next_index, final(self).last_applied_log) == old(self).indexes_from(vx_done.chain@.unwrap()),
+        final(self).snapshot_stage(old(vx_log).s.push(sent(old(self).im(), RaftIndexRequest::LoadIndexInfo)), final(vx_log).s),
+@@ StateApplyManager::load_index entry
+    broadcast use axiom_arc_cloned, axiom_index_reply_sane;
+@@ StateApplyManager::init effects_pass load_index
+@@ StateApplyManager::init t20_calls load_index
+@@ StateApplyManager::init spec
+    requires old(self).data_wrap is Some && old(self).index_manager is Some && old(self).log_manager is Some && old(self).snapshot_manager is Some,
+        old(self).last_applied_log < u64::MAX, all_snapshot_images_ok()
+    ensures
+        final(self).index_manager == old(self).index_manager && final(self).data_wrap == old(self).data_wrap
+            && final(self).log_manager == old(self).log_manager && final(self).snapshot_manager == old(self).snapshot_manager,
+        final(self).snapshot_stage(old(vx_log).s.push(sent(old(self).im(), RaftIndexRequest::LoadIndexInfo)), final(vx_log).s),
